@@ -215,6 +215,52 @@ fn expected_diagnostics(b: &Burst, u: usize) -> Result<Option<Value>, String> {
         }
     }
     srv.settle()?;
+    // Is the incremental analysis of this history (library level, positions from the client model)
+    // equal to a fresh analysis of the final text? Then the reference is simply a fresh didOpen of
+    // the final text: the published diagnostics must describe the final content. Only where the
+    // library itself diverges (C01's subject) the unloaded replay is the reference.
+    let mut lib: Option<spl_frontend::AnalyzedSource> = None;
+    for op in &b.ops {
+        match op {
+            Op::Open(x, text) if *x == u => lib = catch(|| spl_frontend::AnalyzedSource::new(text.clone())).ok(),
+            Op::Close(x) if *x == u => lib = None,
+            Op::Change(x, changes) if *x == u => {
+                if let Some(cur) = lib.take() {
+                    let mut t = cur.text.clone();
+                    let mut tcs = Vec::new();
+                    for c in changes {
+                        let range = match c.range {
+                            Some((a, z)) => lsp::offset_of(&t, a)..lsp::offset_of(&t, z),
+                            None => 0..t.len(),
+                        };
+                        t.replace_range(range.clone(), &c.text);
+                        tcs.push(spl_frontend::TextChange { range, text: c.text.clone() });
+                    }
+                    lib = catch(move || cur.update(tcs)).ok();
+                }
+            }
+            _ => {}
+        }
+    }
+    if let Some(cur) = &lib {
+        let t = cur.text.clone();
+        if let Ok(fresh) = catch(move || spl_frontend::AnalyzedSource::new(t)) {
+            if catch(|| super::c01::difference(cur, &fresh).is_none()).unwrap_or(false) {
+                let mut f = Srv::new(true);
+                f.open(&uri, &cur.text);
+                f.settle()?;
+                let last = f.diagnostics().into_iter().filter(|p| p.uri == uri).last();
+                return Ok(last.map(|p| {
+                    Value::Array(
+                        p.diagnostics
+                            .iter()
+                            .map(|d| json!({ "range": { "start": { "line": d.range.start.line, "character": d.range.start.character }, "end": { "line": d.range.end.line, "character": d.range.end.character } }, "message": d.message }))
+                            .collect(),
+                    )
+                }));
+            }
+        }
+    }
     let last = srv.diagnostics().into_iter().filter(|p| p.uri == uri).last();
     Ok(last.map(|p| {
         Value::Array(
@@ -389,7 +435,7 @@ pub fn run(ctx: &Ctx) -> i32 {
     finish(
         ctx,
         parts,
-        "bursts of 100-800 messages plus, in half of the bursts, 1-3 floods of 40-300 consecutive change notifications on a larger document (didOpen / didChange with 1-2 ranged changes or a full-text change / didClose / hover / $/verif/text / unknown notifications) over 2-5 URIs including pairs that differ only in scheme, authority or suffix, written to the real binary without waiting for answers (1, 3 or 16 writes) while the reader starts after 0-120 ms (back-pressure beyond the channel capacities of 32), with and without the publishDiagnostics capability, each burst under two schedules; oracle: client text model per full URI: every $/verif/text and hover answer reflects exactly the notifications before it in the stream, responses in request order, last diagnostics per open URI = the diagnostics the in-process broker computes when the document's own notifications are replayed without load, none without the capability, closed documents answer null, exit status 0; non-trivial = more than 64 messages with more than 20 switches between URIs; distinct = distinct burst; evaluations = server runs",
+        "bursts of 100-800 messages plus, in half of the bursts, 1-3 floods of 40-300 consecutive change notifications on a larger document (didOpen / didChange with 1-2 ranged changes or a full-text change / didClose / hover / $/verif/text / unknown notifications) over 2-5 URIs including pairs that differ only in scheme, authority or suffix, written to the real binary without waiting for answers (1, 3 or 16 writes) while the reader starts after 0-120 ms (back-pressure beyond the channel capacities of 32), with and without the publishDiagnostics capability, each burst under two schedules; oracle: client text model per full URI: every $/verif/text and hover answer reflects exactly the notifications before it in the stream, responses in request order, last diagnostics per open URI = diagnostics of a fresh didOpen of the final text (where the library-level incremental analysis of that document's history equals the fresh one; otherwise, C01's subject, those of an unloaded in-process replay), none without the capability, closed documents answer null, exit status 0; non-trivial = more than 64 messages with more than 20 switches between URIs; distinct = distinct burst; evaluations = server runs",
         &[
             "the tokio scheduler is not controlled: schedules are sampled (two runs per burst with different reader delays), not enumerated",
             "didChange for a document that is not open must be ignored",
